@@ -321,7 +321,7 @@ func zzC10Route() {
 	mk := func(id jsonrpc.ID, name string, w *zzExch) *stream {
 		s := &stream{id: name, requests: map[jsonrpc.ID]struct{}{id: {}}, lastIdx: -1, w: w, done: make(chan struct{})}
 		if jsonMode {
-			s.pendingJSONMessages = []json.RawMessage{}
+			zzEmptyNonNil(&s.pendingJSONMessages) // (whatever the element type: a JSON-mode stream has a non-nil buffer)
 		}
 		c.streams[name] = s
 		c.requestStreams[id] = name
@@ -849,5 +849,41 @@ func zzC08Standalone() {
 	got2 := check(get, resumeAfter+1, "C08.standalone.resume")
 	vAssert(got2 == len(written)-(resumeAfter+1), "C08.standalone.resume.everything-after-the-cursor-exactly-once")
 	vReach("resumed")
+	vReach("end")
+}
+
+func zzEmptyNonNil[T any](p *[]T) { *p = []T{} }
+
+// ---------------------------------------------------------------- C02/C19: a batch answered in JSON-response mode
+//
+// A pre-2025-06-18 batch of two calls POSTed to a JSON-mode endpoint is answered with one application/json body: an
+// array holding exactly the two responses, each decodable as the JSON-RPC response it is (ids intact), written once
+// both handlers have answered and not before.
+func zzC02JSONBatch() {
+	env := &zzSrvEnv{streamNames: []string{"st1", "st2"}}
+	zzSrv8 = env
+	c := zzConnect(nil, false, true)
+	a, b := zzCall(1, "tools/call"), &jsonrpc.Request{ID: jsonrpc2.StringID("b"), Method: "tools/call", Params: vJSON(&PingParams{})}
+	env.isBatch = true
+	first, second := jsonrpc.ID(a.ID), jsonrpc.ID(b.ID)
+	if vBool("answeredInReverseOrder") {
+		first, second = second, first
+	}
+	w := zzNewExch("post")
+	var r1, r2 *jsonrpc.Response
+	env.hangScript = func(c *streamableServerConn, ctx context.Context) {
+		r1 = &jsonrpc.Response{ID: first, Result: vJSON("first result")}
+		vAssert(c.Write(context.WithValue(context.Background(), idContextKey{}, first), r1) == nil, "C02.jsonbatch.write-accepted")
+		vAssert(len(w.raw) == 0 && len(w.events) == 0, "C02.jsonbatch.nothing-sent-before-the-batch-is-complete")
+		r2 = &jsonrpc.Response{ID: second, Result: vJSON("second result")}
+		vAssert(c.Write(context.WithValue(context.Background(), idContextKey{}, second), r2) == nil, "C02.jsonbatch.write-accepted")
+	}
+	zzPOST(c, w, protocolVersion20250326, a, b)
+	vAssert(env.hangs == 1 && len(w.events) == 0 && len(w.raw) == 1, "C02.jsonbatch.one-json-body")
+	var elems []json.RawMessage
+	vAssert(json.Unmarshal(w.raw[0], &elems) == nil && len(elems) == 2, "C19.jsonbatch.body-is-an-array-of-two-messages")
+	g1, _ := vJSONOf(elems[0]).(jsonrpc.Message)
+	g2, _ := vJSONOf(elems[1]).(jsonrpc.Message)
+	vAssert(g1 == jsonrpc.Message(r1) && g2 == jsonrpc.Message(r2), "C19.jsonbatch.each-element-is-the-response-it-carries")
 	vReach("end")
 }
